@@ -155,6 +155,20 @@ def rule_MP4(rep, prog, k):
                 "dispatch_source_cancel_and_wait can block waiting for DSF_DELETED on a path that neither unregistered the source in place nor called "
                 "dispatch_activate(): for a source that was never activated nothing will ever process the cancellation and the call hangs (path %s)"
                 % (hits[0][3] if hits else None), sample={"wait": wait[0].loc, "activate_calls": len(act)})
+    # exactly once: the in-place unregistration under the freshly taken drain lock is guarded by a DELETED test made AFTER the lock was taken
+    # (the enqueued source may have been invoked and have completed the deletion between the cancel flag and the try-lock)
+    cas = [i for i in fn.all_insts() if i.op == "cmpxchg" and (prog.fields(i) & DQ_STATE)]
+    dtests = flag_tests(fn, calls_named(fn, "_dispatch_queue_atomic_flags"), k["DSF_DELETED"])
+    for u in unr:
+        cx = paths.dom_ctx(fn, u)
+        ok = False
+        for t, src, pol in dtests:
+            if cx.truth.get(t.id) == (not pol) and src is not None and src.op == "call" and any(fn.dominates(c_, src) or fn.inst_reaches(c_, src) for c_ in cas):
+                ok = True
+        rep.require(rid, ok and bool(cas), u.loc, fn.name, "inplace-unregister-without-deleted-recheck",
+                    "dispatch_source_cancel_and_wait unregisters the source in place without re-checking DSF_DELETED after it took the drain lock: when the "
+                    "already enqueued source was invoked and finished the deletion in that window the unregistration is finalised a second time (internal "
+                    "crash 'Source finalized twice' / the cancel handler conditions are evaluated on a finalised source)", sample={"call": u.loc, "deleted_tests": len(dtests)})
     from .sync_common import rule_recheck_after_wait
     rule_recheck_after_wait(rep, rid, prog, "dispatch_source_cancel_and_wait", "dq_atomic_flags", ("_dispatch_wait_on_address",), need_acquire=False,
                             reload_ops=("load", "cmpxchg", "atomicrmw"), reload_calls=("_dispatch_queue_atomic_flags",))
@@ -276,6 +290,10 @@ def run(rep, tier="quick", srcdir=None, only=None):
         rule_MP5(rep, prog, k)
     if want("C16-MP6"):
         rule_MP6(rep, prog, k)
+    if want("C11-MP8"):
+        # the uninstall of a cancelled, still armed timer happens on the manager queue only (shared with C11)
+        from . import C11
+        C11.rule_MP8(rep, prog)
 
 
 MANIFEST = {
